@@ -627,7 +627,7 @@ META = dict(
                 "table rows differ only in integer kernels are indistinguishable for every history of the settings grid (application x Fs x channels x complexity x bitrate x FEC x "
                 "duration x loss/FEC/switch patterns) and every pair of levels, and that a deviant integer kernel breaks this (witness runs). The model is bound to libopus by "
                 "replaying TLC-enumerated histories with twins at levels 0..4: in the fixed-point build packets, final ranges and decoded PCM must be identical at every level; in the "
-                "float build the same holds between levels that differ only in integer kernels (0..3 here), and decoder final ranges are identical at every level. Kernel level: "
+                "float build the same holds between levels that differ only in integer kernels (0..3 here), and decoder final ranges are identical at every level; every table entry must select an implementation of its own row's kernel (WellTyped), else it counts as a deviant implementation. Kernel level: "
                 "each SIMD kernel symbol of libopus.a is intercepted at link time; on every call the codec makes, and on seeded synthetic shapes, the SIMD result and the portable C "
                 "result are recorded and TLC demands bit-identity for integer kernels and the reassociation bound for float kernels."),
     level_note=("Trusted: TLC, the Json module, the harness's difference measurement for float kernels. NOT covered: kernel equivalence over all argument shapes (only the shapes "
